@@ -96,6 +96,19 @@ class VOpt(V):
         return 'VOpt(%s,%r)' % (self.isnone, self.inner)
 
 
+class VPat(V):
+    """A pattern-list element: the class EOF, the class TIMEOUT, or a payload value (text / regex)."""
+    def __init__(self, iseof, isto, payload):
+        self.iseof, self.isto, self.payload = iseof, isto, payload
+
+    def is_text(self):
+        import z3
+        return z3.And(z3.Not(self.iseof), z3.Not(self.isto))
+
+    def __repr__(self):
+        return 'VPat(%s,%s,%r)' % (self.iseof, self.isto, self.payload)
+
+
 class VFunc(V):
     """kind: 'method' (fi, self), 'closure' (node, env, module, cls), 'builtin' (name),
     'extern' (qualified name), 'bound_builtin' (name, self value)"""
